@@ -318,11 +318,14 @@ package fsutil
 // directly behind the bytes already handed out of the last chunk (same backing
 // array), or a fresh chunk appended at the end. Earlier chunks keep their
 // position, backing array and length; no byte of any chunk is written.
+//@ effectdecl Recorded()
 //@ func buffer.alloc
 //@   property C19
 //@   safety +overflow
 //@   requires b != nil && n >= 0
 //@   modifies b.chunks, b.chunks[*]
+//@   effects Recorded
+//@   posteffect Recorded()
 //@   ensures len: len(result) == n
 //@   ensures prefix: forall k int :: 0 <= k && k < old(len(b.chunks)) - 1 ==> b.chunks[k] == old(b.chunks[k])
 //@   ensures grow: len(b.chunks) == old(len(b.chunks)) || len(b.chunks) == old(len(b.chunks)) + 1
@@ -446,8 +449,12 @@ package fsutil
 //@   requires nothing_pending_at_start: len(metadataParents.items) == 0
 //@   opaque specPathLess
 //@   modifies heap
-//@   effects RecvMsg StatRecv RecvDone MuLock MuUnlock Progress ChanSend PipeWrite PipeClose OrderOK LinkOK
+//@   effects RecvMsg StatRecv RecvDone MuLock MuUnlock Progress ChanSend PipeWrite PipeClose OrderOK LinkOK Recorded
 //@   loop 0 invariant id_counter: i == uint32(cnt(StatRecv) - old(cnt(StatRecv)))
+// the listing holds a record for every announced entry, the listing file's own name excepted: when
+// the loop comes round, the last announced entry either got its record after it arrived, or it is
+// the entry named exactly like the listing file (not merely beginning like it)
+//@   loop 0 invariant every_announced_entry_recorded_but_the_listing_name: metadataTransfer && cnt(StatRecv) > old(cnt(StatRecv)) && !(cnt(Recorded) > old(cnt(Recorded)) && when(Recorded) > when(StatRecv)) ==> arg(StatRecv, 0).Path == ".fsutil-metadata"
 //@   loop 0 invariant maps: r.files == old(r.files) && r.pipes == old(r.pipes)
 //@   loop 0 invariant vwf: specVStack(r.orderValidator.parentDirs)
 // metadata-only mode: the pending (unselected) directories form a chain of direct parents, so
@@ -594,6 +601,9 @@ package fsutil
 // what is written to disk is the stat the receive-side filter saw and may have rewritten (its own
 // copy, never the stat as sent): for the metadata of an existing directory, of a new entry, for
 // the special-file arm and for the content request alike
+// content is written into a NEW entry: an existing destination entry is replaced by rename, never
+// opened and rewritten in place (it would keep the tail of longer old content, and its other names)
+//@   at call os.OpenFile: an_existing_entry_is_replaced_by_rename_not_reused: rename == (oldFi != nil)
 //@   at call rewriteMetadata: the_filtered_copy_is_applied: arg1 == statCopy && arg1 != stat
 //@   at call handleTarTypeBlockCharFifo: the_filtered_copy_is_applied: arg1 == statCopy
 //@   at call DiskWriter.requestAsyncFileData: the_filtered_copy_is_applied: arg4 == statCopy
@@ -617,7 +627,12 @@ package fsutil
 //@   at call renameFile: obstacle_removed_before_rename: rename && arg1 == destPath && (oldFi.IsDir() != fi.IsDir() ==> cnt(RemoveAll) > old(cnt(RemoveAll)) && arg(RemoveAll, 0) == destPath)
 //@   ensures dir_arm: kind != ChangeKindDelete && fi.IsDir() ==> cnt(Symlink) == old(cnt(Symlink)) && cnt(Link) == old(cnt(Link)) && cnt(OpenFile) == old(cnt(OpenFile)) && cnt(Mknod) == old(cnt(Mknod)) && cnt(GoSpawn) == old(cnt(GoSpawn))
 //@   ensures dir_mode: kind != ChangeKindDelete && retErr == nil && cnt(MkdirOK) > old(cnt(MkdirOK)) ==> fi.IsDir() && arg(Mkdir, 1) == fi.Mode() && haskey(old(dw.dirModTimes), filepath.Join(old(dw.dest), p))
-//@   ensures special_arm: kind != ChangeKindDelete && !fi.IsDir() && specIsSpecial(fi) ==> cnt(Mkdir) == old(cnt(Mkdir)) && cnt(Symlink) == old(cnt(Symlink)) && cnt(Link) == old(cnt(Link)) && cnt(OpenFile) == old(cnt(OpenFile)) && cnt(GoSpawn) == old(cnt(GoSpawn))
+// a device or fifo is made with mknod - unless the stat names an earlier member of its hard-link
+// group, then it is linked like any other non-directory (F39: it was mknod'ed again: the group was
+// not reproduced and the second name was re-created on every re-sync)
+//@   ensures special_arm: kind != ChangeKindDelete && !fi.IsDir() && specIsSpecial(fi) && fi.Mode() & os.ModeSymlink == 0 ==> cnt(Mkdir) == old(cnt(Mkdir)) && cnt(Symlink) == old(cnt(Symlink)) && cnt(OpenFile) == old(cnt(OpenFile)) && cnt(GoSpawn) == old(cnt(GoSpawn))
+//@   at call handleTarTypeBlockCharFifo: first_name_of_its_inode: statCopy.Linkname == "" && specIsSpecial(fi)
+//@   at call os.Link: later_name_of_an_inode: statCopy.Linkname != "" && !fi.IsDir() && fi.Mode() & os.ModeSymlink == 0
 //@   ensures symlink_arm: kind != ChangeKindDelete && !fi.IsDir() && !specIsSpecial(fi) && fi.Mode() & os.ModeSymlink != 0 ==> cnt(Mkdir) == old(cnt(Mkdir)) && cnt(Mknod) == old(cnt(Mknod)) && cnt(Link) == old(cnt(Link)) && cnt(OpenFile) == old(cnt(OpenFile)) && cnt(GoSpawn) == old(cnt(GoSpawn))
 //@   ensures plain_arm: kind != ChangeKindDelete && !fi.IsDir() && !specIsSpecial(fi) && fi.Mode() & os.ModeSymlink == 0 ==> cnt(Mkdir) == old(cnt(Mkdir)) && cnt(Mknod) == old(cnt(Mknod)) && cnt(Symlink) == old(cnt(Symlink))
 //@   ensures link_or_file: kind != ChangeKindDelete && retErr == nil ==> cnt(Link) == old(cnt(Link)) || cnt(OpenFile) == old(cnt(OpenFile))
@@ -761,12 +776,16 @@ package fsutil
 //@   property C09
 //@   requires fs != nil
 //@   requires skipdir_is_an_error: filepath.SkipDir != nil
+//@   requires skipdir_is_a_plain_sentinel: filepath.SkipDir != os.ErrNotExist && !isdyn(filepath.SkipDir, syscall.Errno)
 //@   effects WalkFn WalkFnRes CtxErr
 //@   ensures root_skipped: filepath.Rel#1(fs.root, path) == nil && filepath.Rel(fs.root, path) == "." ==> cnt(WalkFn) == old(cnt(WalkFn)) && retErr == nil
 //@   ensures atmost: cnt(WalkFn) <= old(cnt(WalkFn)) + 1
 //@   ensures relpath: cnt(WalkFn) > old(cnt(WalkFn)) ==> arg(WalkFn, 0) == filepath.Rel(fs.root, path) && arg(WalkFn, 0) != "." && arg(WalkFn, 2) == walkErr && (dirEntry == nil) == (arg(WalkFn, 1) == nil)
 // the rest of a directory is skipped (SkipDir for a non-directory) only when the callback itself
 // asked for it: an entry that merely vanished is skipped alone (it was not: found and repaired, F16)
+// ... and when it did ask (the map function's "drop the rest of this directory", a filter's pruning)
+// the answer reaches WalkDir unchanged, for files and directories alike
+//@   ensures callbacks_skipdir_is_passed_on: cnt(WalkFnRes) > old(cnt(WalkFnRes)) && arg(WalkFnRes, 0) == filepath.SkipDir ==> retErr == filepath.SkipDir
 //@   ensures vanished_entry_skipped_alone: retErr == filepath.SkipDir && filepath.Rel#1(fs.root, path) == nil && dirEntry != nil && !dirEntry.IsDir() ==> cnt(WalkFnRes) > old(cnt(WalkFnRes)) && arg(WalkFnRes, 0) == filepath.SkipDir
 // every other entry is forwarded exactly once unless the context is done (a vanished
 // non-directory is forwarded too: the callback is what notices that it is gone)
@@ -898,7 +917,7 @@ package fsutil
 //@ func NewFilterFS
 //@   property C10 C11 C18
 //@   modifies array os.DirEntry, maps string struct{}
-//@   effects FollowedToRoot GlobMatch GlobMatchRes EntryResolved
+//@   effects FollowedToRoot GlobMatch GlobMatchRes EntryResolved Appended
 //@   ensures no_options: opt == nil ==> result0 == fs && result1 == nil
 //@   ensures wraps: opt != nil && result1 == nil ==> isptr(result0, filterFS) && asptr(result0, filterFS) != nil && fresh(asptr(result0, filterFS)) && asptr(result0, filterFS).fs == fs && asptr(result0, filterFS).mapFn == opt.Map
 //@   ensures exclude_matcher: opt != nil && result1 == nil ==> (asptr(result0, filterFS).excludeMatcher != nil) == (len(opt.ExcludePatterns) > 0)
@@ -938,7 +957,9 @@ package fsutil
 
 //@ func isNotExist
 //@   property C10 C09
+//@   requires skipdir_is_a_plain_sentinel: filepath.SkipDir != os.ErrNotExist && !isdyn(filepath.SkipDir, syscall.Errno)
 //@   ensures nilerr: err == nil ==> true
+//@   ensures skipdir_is_not_a_vanished_entry: err == filepath.SkipDir ==> !result
 
 // The stack of visited directories: every entry's prefix ends with the separator
 // (so a sibling whose name merely extends a directory's name is never taken for
@@ -951,6 +972,7 @@ package fsutil
 //@ func filterFS.Walk$1
 //@   property C10
 //@   requires fs != nil
+//@   requires skipdir_is_a_plain_sentinel: filepath.SkipDir != os.ErrNotExist && !isdyn(filepath.SkipDir, syscall.Errno)
 //@   requires stack: forall k int :: 0 <= k && k < len(parentDirs) ==> specEndsWithSep(parentDirs[k].pathWithSep)
 //@   modifies heap
 //@   effects *
@@ -1047,9 +1069,12 @@ package fsutil
 // verified comparator (a strict total order, so the result is strictly ascending), which is
 // exactly the precondition of dedupePaths; the result is ascending and prefix-free.
 //@ effectdecl FollowedToRoot(reached bool)
+// every requested path goes through the component-wise resolver (an existence test by the view or
+// the OS follows links in intermediate components silently - those links would be missing)
 //@ func FollowLinks
 //@   property C18
-//@   effects GlobMatch GlobMatchRes EntryResolved FollowedToRoot
+//@   effects GlobMatch GlobMatchRes EntryResolved FollowedToRoot Appended
+//@   loop 0 invariant each_request_resolved_component_wise: rangeindex >= 0 ==> cnt(Appended) > old(cnt(Appended)) && arg(Appended, 0) == paths[rangeindex]
 //@   posteffect FollowedToRoot(result0 == nil) when result1 == nil
 //@   use pathless_irrefl pathless_trans pathless_total pathless_asym
 //@   opaque specPathLess specInside
@@ -1104,10 +1129,12 @@ package fsutil
 // before any recursive call is made, and an already resolved path returns at
 // once - so every recursive descent strictly shrinks the set of unresolved
 // link paths. The set only grows.
+//@ effectdecl Appended(p string)
 //@ func symlinkResolver.append
 //@   property C18
 //@   requires r != nil && r.resolved != nil
-//@   effects GlobMatch GlobMatchRes EntryResolved
+//@   effects GlobMatch GlobMatchRes EntryResolved Appended
+//@   posteffect Appended(p)
 //@   modifies r.resolved[*], array os.DirEntry
 //@   loop 0 invariant unchanged: (forall k string :: haskey(r.resolved, k) == old(haskey(r.resolved, k))) && len(r.resolved) == old(len(r.resolved))
 //@   loop 1 invariant grown: (forall k string :: old(haskey(r.resolved, k)) ==> haskey(r.resolved, k)) && len(r.resolved) > old(len(r.resolved)) && haskey(r.resolved, current)
@@ -1293,10 +1320,13 @@ package fsutil
 //@   effects Mknod
 //@   ensures once: cnt(Mknod) == old(cnt(Mknod)) + 1 && arg(Mknod, 0) == path && arg(Mknod, 1) == mode && arg(Mknod, 2) == int(unix.Mkdev(uint32(stat.Devmajor), uint32(stat.Devminor)))
 
+// ... and the temporary name is gone afterwards (F38: rename(2) does nothing when both names are
+// already links to one inode; the temporary name stayed in the destination, never reported)
 //@ func renameFile
-//@   property C01 C03
-//@   effects Rename
+//@   property C01 C03 C05
+//@   effects Rename Remove
 //@   ensures once: cnt(Rename) == old(cnt(Rename)) + 1 && arg(Rename, 0) == src && arg(Rename, 1) == dst
+//@   ensures temporary_name_removed: result == nil ==> cnt(Remove) == old(cnt(Remove)) + 1 && arg(Remove, 0) == src && when(Rename) < when(Remove)
 //@   ensures err: (result == nil) ==> true
 
 // a view is rooted at an existing directory (the root argument is resolved first)
